@@ -29,6 +29,7 @@ import (
 	"github.com/elastos/Elastos.ELA/core/types/interfaces"
 	"github.com/elastos/Elastos.ELA/core/types/outputpayload"
 	"github.com/elastos/Elastos.ELA/core/types/payload"
+	crstate "github.com/elastos/Elastos.ELA/cr/state"
 	"github.com/elastos/Elastos.ELA/database"
 	"github.com/elastos/Elastos.ELA/dpos/state"
 	"github.com/elastos/Elastos.ELA/zzverif/vrand"
@@ -348,6 +349,48 @@ func main() {
 				break
 			}
 			idx = got
+		}
+	}
+	// CRC part of the next arbiter set: which configured node key serves which council member
+	// that has not claimed a node. Same committee, evaluated 40 times.
+	{
+		cp := config.GetDefaultParams()
+		var crc []string
+		for i := 0; i < 12; i++ {
+			crc = append(crc, common.BytesToHexString(keys.Pub(i%10)[:1])+fmt.Sprintf("%064x", 1000+i*7919))
+		}
+		cp.DPoSConfiguration.CRCArbiters = crc
+		committee := &crstate.Committee{}
+		committee.Members = make(map[common.Uint168]*crstate.CRMember)
+		for i := 0; i < 12; i++ {
+			pkb := keys.Pub(i % 10)
+			code := append(append([]byte{byte(len(pkb))}, pkb...), 0xac)
+			var did common.Uint168
+			did[0] = 0x67
+			did[1] = byte(i + 1)
+			m := &crstate.CRMember{Info: payload.CRInfo{Code: code, CID: did, DID: did}, MemberState: crstate.MemberElected}
+			if i >= 4 { // four members have not claimed a node
+				m.DPOSPublicKey = keys.Pub((i + 3) % 10)
+				m.DPOSPublicKey = append([]byte{}, m.DPOSPublicKey...)
+				m.DPOSPublicKey[32] ^= byte(i)
+			}
+			committee.Members[did] = m
+		}
+		h := cp.CRConfiguration.CRClaimDPOSNodeStartHeight + 1
+		first := ""
+		for k := 0; k < 40; k++ {
+			cur, err := state.VerifCRCArbitersV1(cp, committee, h)
+			if err != nil {
+				evid.Fatalf("harness: getCRCArbitersV1: %v", err)
+			}
+			if k == 0 {
+				first = cur
+			} else if cur != first {
+				r.Violate("C24|crc-arbiters-nondeterministic|getCRCArbitersV1",
+					"the node keys assigned to council members without a claimed node differ between two sequential evaluations on the same committee (e.g. an assignment that follows Go map iteration order)",
+					map[string]interface{}{"scenario": scen{Name: "sequential-repeat-crc"}, "schedule": []int{}, "first": first, "other": cur})
+				break
+			}
 		}
 	}
 	if r.NumViolations() > 0 && r.Replay == "" {
